@@ -16,7 +16,7 @@ from __future__ import annotations
 
 import ast
 
-from ..model import Program, call_name, is_self_attr, norm
+from ..model import Program, call_name, is_self_attr, norm, expand_locals, single_assignment_locals
 from ..poly import Rat
 from ..report import AnalysisError
 from ..symexec import SymEnv
@@ -61,7 +61,7 @@ def rule_r1(rep, program: Program):
         rets = [n for n in ast.walk(g.node) if isinstance(n, ast.Return)]
         if len(rets) != 1:
             raise AnalysisError(f"{g.qualname}: expected a single return")
-        v = rets[0].value
+        v = expand_locals(rets[0].value, single_assignment_locals(g.node))
         dh = k.resolve("dh2_dmom")
         dret = [n for n in ast.walk(dh.node) if isinstance(n, ast.Return)][0].value
         if not (isinstance(dret, ast.BinOp) and isinstance(dret.op, ast.MatMult) and isinstance(dret.left, ast.Attribute) and dret.left.attr == "inv"):
